@@ -62,6 +62,11 @@ Theorem C04_by_height_overflow_refuted :
     In r s /\ st r = Longest /\ h <= height r <= h + c - 1 /\ ~ In r (by_height_range s h (Some c)).
 Proof. exact by_height_overflow_refuted. Qed.
 
+(* the proposed repair (build/proposed-fixes/C04-2.diff, Query.by_height_range_fixed) satisfies the statement for all arguments *)
+Theorem C04_by_height_fixed : forall s h c r, (forall x, In x s -> height x < two63) ->
+  (In r (by_height_range_fixed s h c) <-> In r s /\ h <= height r <= h + count_of c - 1).
+Proof. exact by_height_fixed_char. Qed.
+
 (* tips: the Longest tip plus every leaf (row without a stored child) of a Stale or Orphan branch *)
 Theorem C04_tips : forall s, Valid s ->
   exists t, tipB s = Some t /\ st t = Longest /\ best s = Some t /\
@@ -165,6 +170,7 @@ Print Assumptions C04_lookup.
 Print Assumptions C04_tip_longest.
 Print Assumptions C04_by_height.
 Print Assumptions C04_by_height_code.
+Print Assumptions C04_by_height_fixed.
 Print Assumptions C04_by_height_overflow_refuted.
 Print Assumptions C04_tips.
 Print Assumptions C04_connected_regular.
